@@ -307,6 +307,16 @@ func init() {
 				conns, rep := okConn()
 				emit(cliLine(cc, text, top, conns, rep))
 			}
+			{ // a well-formed reply frame without any message: as the authentication answer, and as an answer under -splitrequests
+				cc := base()
+				pc := newPeerConn(cliKey)
+				emit(cliLine(cc, pv.text(), pv, [][]reaction{{answer(pc.reply([]rscp.Message{}, true))}}, nil))
+				cc2 := base()
+				cc2.split = true
+				pc2 := newPeerConn(cliKey)
+				two := jarr(jstr("EMS_REQ_POWER_PV"), jstr("EMS_REQ_POWER_BAT"))
+				emit(cliLine(cc2, two.text(), two, [][]reaction{{answer(pc2.reply(authReply(10), true)), answer(pc2.reply([]rscp.Message{}, true))}}, nil))
+			}
 			special(func(c *cliCase) { c.help = true }, pv.text(), pv)
 			special(func(c *cliCase) { c.version = true }, pv.text(), pv)
 			special(func(c *cliCase) { c.help = true; c.host = false }, pv.text(), pv)
